@@ -1,29 +1,35 @@
 /-!
-# C22 — model of `oxidize-pdf-core/src/batch/{worker,mod,progress}.rs`
+# C22 — the batch module BEFORE the repairs of C22-F1/F1b/F2/F3 (/repo commits 08e667bd, ee30711a, b8d0a5b8)
+
+This is the model of `oxidize-pdf-core/src/batch/{worker,mod,progress}.rs` as the code was before
+those commits, kept unchanged as the subject of the counter-witnesses in `Props/C22.lean`
+(`OxiVerif.C22Old.C22_witness_*`).  The model of the current code is `Model/C22.lean`.
+Line numbers below refer to the pre-repair worker.rs.
 
 A labelled transition system.  One `Act` = one atomic (synchronising) statement of the code:
 
 dispatcher  (`WorkerPool::process_jobs`, the `for (idx, job) in jobs` loop)
-  * `dLoad`   `if cancelled.load(SeqCst)`
-  * `dSendC`  `result_sender.send((idx, JobResult::Cancelled{..})); continue`
-  * `dEnq`    `self.sender.send(WorkerMessage::Job(idx, wrapped_job))`; `.is_err()` (no worker
-              thread exists, the receiver is dropped) → `break`
-  * `dClose`  `drop(result_sender); drop(self.sender)`
-worker thread (`Worker::new` loop + the wrapped closure built in `process_jobs`; the Custom and
-the non-Custom wrapper have the same statements, they differ in the operation they call)
-  * `deq`     `receiver.lock(); receiver.recv()` → `Ok(Job(idx, job))`
+  * `dLoad`   `if cancelled.load(SeqCst)`                                   worker.rs:80
+  * `dSendC`  `result_sender.send((idx, JobResult::Cancelled{..})); continue` worker.rs:81-87
+  * `dEnq`    `self.sender.send(WorkerMessage::Job(idx, wrapped_job))`; `.is_err()` (every worker
+              thread has gone, the receiver is dropped) → `break`            worker.rs:189-195
+  * `dClose`  `drop(result_sender); drop(self.sender)`                       worker.rs:199-200
+worker thread (`Worker::new` loop + the wrapped closure built in `process_jobs`)
+  * `deq`     `receiver.lock(); receiver.recv()` → `Ok(Job(idx, job))`       worker.rs:243-254
   * `w k`     the next statement of the worker that holds job `k`:
-      `got`      → `if cancelled_clone.load(SeqCst)`: the job's first statement.  Flag set:
-                   `canc`, flag clear: `start`
-      `canc`     → `result_sender.send((idx, JobResult::Cancelled{..})); return` — the job is never
-                   started (no `start_job`), the worker goes back to the job channel
-      `start`    → `progress.start_job()` (running += 1)
-      `go`       → the user operation / `execute_job(job)` under `catch_unwind`: returns Ok, returns
-                   Err, or panics — a panic is turned into an `Err` (`panic_to_error`)
-      `fst`      → (Err) `if stop_on_error { cancelled_clone.store(true) }` — BEFORE `fail_job()`
-      `done r`   → `running_jobs.fetch_sub(1)`         (first statement of complete_job / fail_job)
+      `got`      → `progress.start_job()` (running += 1)                    worker.rs:101 / 147
+      `started`  → custom: `cancelled_clone.load()` → `Err(OperationCancelled)` | run `operation()`
+                   non-custom: `execute_job(job)` (NO look at `cancelled`)   worker.rs:104-108 / 150
+      `go`       → the user operation: returns Ok / Err, or panics: the thread unwinds, the
+                   worker is gone, nothing is sent, `running` stays incremented
+      `done r`   → `running_jobs.fetch_sub(1)`                               progress.rs complete_job/fail_job
       `dec r`    → `completed_jobs.fetch_add(1)` | `failed_jobs.fetch_add(1)`
-      `cnt r`    → `result_sender.send((idx, Success|Failed))`; the worker goes back to the channel
+      `cnt r`    → `result_sender.send((idx, Success|Failed))`               worker.rs:115 / 126 / 156 / 167
+                   (the job leaves `inflight`; non-custom ∧ Err ∧ `stop_on_error`: the worker
+                   moves to `storing`, otherwise it goes back to the job channel)
+  * `store k` the worker that has just reported the failure of non-custom job `k`:
+                   `cancelled.store(true)`                                   worker.rs:176-178
+                   (custom jobs never store: worker.rs:96-138 has no such statement)
 collector: `results[idx] = Some(result)` for every message, then `results.into_iter().flatten()`
   — modelled by the log `sent` and `summary` (slot array read-out).
 outside: `extCancel` (`BatchProcessor::cancel` / a store on the shared flag at any time),
@@ -33,12 +39,9 @@ outside: `extCancel` (`BatchProcessor::cancel` / a store on the shared flag at a
 Worker threads are interchangeable; the state keeps the jobs in flight and the number of idle
 workers (split by the instrumentation bit `wk`, see `Fl`).  Logs are kept sorted (they are sets).
 
-The transition relation of the code BEFORE the repairs of C22-F1/F2/F3 is kept in
-`Model/C22Old.lean`; the counter-witnesses of `Props/C22.lean` are statements about that one.
-
 Import-free.
 -/
-namespace OxiVerif.C22
+namespace OxiVerif.C22Old
 
 inductive Out | ok | err | panic
 deriving DecidableEq, Repr, Hashable
@@ -68,7 +71,7 @@ inductive Kind | success | failed | cancelled
 deriving DecidableEq, Repr, Hashable
 
 inductive Pc
-  | got | canc | start | go | fst
+  | got | started | go
   | done (okr : Bool) | dec (okr : Bool) | cnt (okr : Bool)
 deriving DecidableEq, Repr, Hashable
 
@@ -80,10 +83,9 @@ structure Fl where
   wk : Bool
   /-- instrumentation: `wk` when the job was dequeued -/
   prov : Bool
-  /-- ghost: the cancel flag was set when the job's first statement (the look at the flag) ran -/
+  /-- ghost: the cancel flag was set when `start_job` ran -/
   lateC : Bool
-  /-- ghost: a failure had been recorded (`fail_job()` entered by some job) when the job's first
-  statement ran -/
+  /-- ghost: `failed_jobs ≥ 1` (a failure was recorded) when `start_job` ran -/
   lateF : Bool
 deriving DecidableEq, Repr, Hashable
 
@@ -97,16 +99,18 @@ structure St where
   extDone : Bool
   queue : List Nat
   inflight : List Fl
+  /-- workers between `send(Failed)` and `cancelled.store(true)` (non-custom, stop_on_error) -/
+  storing : List Fl
   idleK : Nat
   idleN : Nat
+  /-- jobs whose operation panicked (their worker thread is gone) -/
+  lost : List Nat
   running : Nat
   completed : Nat
   failed : Nat
   /-- ghost: number of `start_job` calls / of `running_jobs.fetch_sub` calls -/
   startedN : Nat
   finishedN : Nat
-  /-- ghost: number of `fail_job()` calls entered (its first statement executed) -/
-  failBegun : Nat
   /-- every message sent on the result channel -/
   sent : List (Nat × Kind)
   /-- jobs whose operation was entered -/
@@ -124,13 +128,14 @@ inductive Act
   | dLoad | dSendC | dEnq | dClose
   | deq (knows : Bool)
   | w (k : Nat)
+  | store (k : Nat)
   | extCancel | monExit
 deriving DecidableEq, Repr
 
 def init (cfg : Cfg) : St :=
-  { dnext := 0, dpc := .top, cancelled := cfg.pre, extDone := false, queue := [], inflight := [],
-    idleK := 0, idleN := cfg.workers, running := 0, completed := 0, failed := 0,
-    startedN := 0, finishedN := 0, failBegun := 0, sent := [], ranLog := [], provLog := [], ranLateC := [],
+  { dnext := 0, dpc := .top, cancelled := cfg.pre, extDone := false, queue := [], inflight := [], storing := [],
+    idleK := 0, idleN := cfg.workers, lost := [], running := 0, completed := 0, failed := 0,
+    startedN := 0, finishedN := 0, sent := [], ranLog := [], provLog := [], ranLateC := [],
     ranLateF := [], mon := cfg.monitor }
 
 /-- sorted insertion (logs are sets; keeping them sorted makes equal sets equal states) -/
@@ -152,13 +157,15 @@ def updFl (k : Nat) (g : Fl → Fl) (l : List Fl) : List Fl :=
   l.map (fun f => if f.idx == k then g f else f)
 def dropFl (k : Nat) (l : List Fl) : List Fl := l.filter (fun f => !(f.idx == k))
 
+def alive (s : St) : Nat := s.idleK + s.idleN + s.inflight.length + s.storing.length
+
 /-- a worker goes back to waiting on the job channel -/
 def release (s : St) (wk : Bool) : St :=
   if wk then { s with idleK := s.idleK + 1 } else { s with idleN := s.idleN + 1 }
 
 def kindOf (okr : Bool) : Kind := if okr then .success else .failed
 
-/-- entering the operation of job `f.idx` (`catch_unwind(AssertUnwindSafe(operation))`) -/
+/-- entering the operation of job `f.idx` -/
 def runOp (cfg : Cfg) (s : St) (f : Fl) : St :=
   let k := f.idx
   let sp := specOf cfg k
@@ -170,32 +177,33 @@ def runOp (cfg : Cfg) (s : St) (f : Fl) : St :=
     cancelled := s.cancelled || sp.cancels }
   match sp.out with
   | .ok => { s with inflight := setPc k (.done true) s.inflight }
-  | .err => { s with inflight := updFl k (fun f => { f with pc := .fst, wk := f.wk || sp.custom }) s.inflight }
-  | .panic => { s with inflight := setPc k .fst s.inflight }
+  | .err => { s with inflight := updFl k (fun f => { f with pc := .done false, wk := f.wk || sp.custom }) s.inflight }
+  | .panic => { s with inflight := dropFl k s.inflight, lost := ins k s.lost }
 
 def wstep (cfg : Cfg) (s : St) (f : Fl) : St :=
   let k := f.idx
+  let sp := specOf cfg k
   match f.pc with
   | .got =>
-    { s with inflight := updFl k (fun f => { f with pc := if s.cancelled then .canc else .start,
-                                                    lateC := s.cancelled,
-                                                    lateF := decide (0 < s.failBegun) }) s.inflight }
-  | .canc =>
-    release { s with sent := insSent (k, .cancelled) s.sent, inflight := dropFl k s.inflight } f.wk
-  | .start =>
-    { s with running := s.running + 1, startedN := s.startedN + 1, inflight := setPc k .go s.inflight }
+    { s with running := s.running + 1, startedN := s.startedN + 1,
+             inflight := updFl k (fun f => { f with pc := .started, lateC := s.cancelled,
+                                                     lateF := decide (0 < s.failed) }) s.inflight }
+  | .started =>
+    if sp.custom then
+      if s.cancelled then { s with inflight := setPc k (.done false) s.inflight }
+      else { s with inflight := setPc k .go s.inflight }
+    else runOp cfg s f
   | .go => runOp cfg s f
-  | .fst =>
-    { s with cancelled := s.cancelled || cfg.soe, inflight := setPc k (.done false) s.inflight }
   | .done r =>
     { s with running := s.running - 1, finishedN := s.finishedN + 1,
-             failBegun := if r then s.failBegun else s.failBegun + 1,
              inflight := setPc k (.dec r) s.inflight }
   | .dec r =>
     if r then { s with completed := s.completed + 1, inflight := setPc k (.cnt r) s.inflight }
     else { s with failed := s.failed + 1, inflight := setPc k (.cnt r) s.inflight }
   | .cnt r =>
-    release { s with sent := insSent (k, kindOf r) s.sent, inflight := dropFl k s.inflight } f.wk
+    let s := { s with sent := insSent (k, kindOf r) s.sent, inflight := dropFl k s.inflight }
+    if !sp.custom && !r && cfg.soe then { s with storing := s.storing ++ [f] }
+    else release s f.wk
 
 def step (cfg : Cfg) (s : St) : Act → Option St
   | .dLoad =>
@@ -210,7 +218,7 @@ def step (cfg : Cfg) (s : St) : Act → Option St
     else none
   | .dEnq =>
     if s.dpc = .enq then
-      if cfg.workers = 0 then some { s with dpc := .closed }
+      if alive s = 0 then some { s with dpc := .closed }
       else some { s with queue := s.queue ++ [s.dnext], dnext := s.dnext + 1, dpc := .top }
     else none
   | .deq b =>
@@ -228,6 +236,10 @@ def step (cfg : Cfg) (s : St) : Act → Option St
     match findFl k s.inflight with
     | none => none
     | some f => some (wstep cfg s f)
+  | .store k =>
+    match findFl k s.storing with
+    | none => none
+    | some f => some (release { s with cancelled := true, storing := s.storing.erase f } f.wk)
   | .extCancel =>
     if cfg.ext ∧ s.extDone = false then some { s with cancelled := true, extDone := true } else none
   | .monExit =>
@@ -237,7 +249,7 @@ def step (cfg : Cfg) (s : St) : Act → Option St
 /-- every action that can possibly be enabled in `s` -/
 def acts (s : St) : List Act :=
   [.dLoad, .dSendC, .dEnq, .dClose, .deq true, .deq false, .extCancel, .monExit]
-    ++ s.inflight.map (fun f => .w f.idx)
+    ++ s.inflight.map (fun f => .w f.idx) ++ s.storing.map (fun f => .store f.idx)
 
 def next (cfg : Cfg) (s : St) : List St := (acts s).filterMap (step cfg s)
 
@@ -252,15 +264,10 @@ inductive Reachable (cfg : Cfg) : St → Prop
   | init : Reachable cfg (init cfg)
   | step {s s' a} : Reachable cfg s → step cfg s a = some s' → Reachable cfg s'
 
-/-- `s'` is reached from `s` by zero or more actions -/
-inductive Steps (cfg : Cfg) : St → St → Prop
-  | refl (s) : Steps cfg s s
-  | step {s s' s'' a} : Steps cfg s s' → step cfg s' a = some s'' → Steps cfg s s''
-
 /-- `process_jobs` has returned (all workers joined, collector drained): dispatcher closed,
 nothing in flight, nothing a live worker could still dequeue. -/
 def workersDone (s : St) : Bool :=
-  s.dpc == .closed && s.inflight.isEmpty && (s.queue.isEmpty || s.idleK + s.idleN == 0)
+  s.dpc == .closed && s.inflight.isEmpty && s.storing.isEmpty && (s.queue.isEmpty || s.idleK + s.idleN == 0)
 
 /-- `execute` / `process_jobs` has returned to the caller -/
 def quiescent (s : St) : Bool := workersDone s && !s.mon
@@ -281,24 +288,4 @@ def summary (cfg : Cfg) (s : St) : List (Nat × Kind) :=
 
 def countKind (k : Kind) (l : List (Nat × Kind)) : Nat := (l.filter (fun m => m.2 == k)).length
 
-/-! ### `result.rs` / `mod.rs`: summary arithmetic -/
-
-/-- `BatchProcessor::execute`'s counting loop over the job results:
-`Success => successful += 1, Failed => failed += 1, Cancelled => {}` -/
-def tally : List (Nat × Kind) → Nat × Nat
-  | [] => (0, 0)
-  | m :: l =>
-    let (s, f) := tally l
-    match m.2 with
-    | .success => (s + 1, f)
-    | .failed => (s, f + 1)
-    | .cancelled => (s, f)
-
-/-- `BatchResult::{success_count, failure_count, cancelled_count}` (filter + count) -/
-def resultCounts (l : List (Nat × Kind)) : Nat × Nat × Nat :=
-  (countKind .success l, countKind .failed l, countKind .cancelled l)
-
-/-- `BatchResult::all_successful` -/
-def allSuccessful (l : List (Nat × Kind)) : Bool := l.all (fun m => m.2 == .success)
-
-end OxiVerif.C22
+end OxiVerif.C22Old
